@@ -49,7 +49,13 @@ def make_script(rng):
     defs = W.rand_trx_defs(rng)
     n = 2 + len(defs)
     ops = W.setup_ops(rng, n)
-    fn = rng.choice([0, 100, 2715640, 1326 * 7, rng.below(W.H)])
+    if rng.chance(1, 2):
+        # frequency hopping from the start on one or two transceivers (fixed tuning stays configured underneath and differs from the hopping channels)
+        for i in set(rng.below(n) for _ in range(rng.range(1, 2))):
+            k = rng.range(1, 4)
+            fr = " ".join("%d %d" % (rng.choice(W.FREQS), rng.choice(W.FREQS)) for _ in range(k))
+            ops.append(("ctrl", i, W.cmd("CMD SETFH %d %d %s" % (rng.choice([0, 1, 17, 63]), rng.below(4), fr))))
+    fn = rng.choice([0, 0, 100, 2715640, W.H - 3, W.H - 1, 1326 * 7, rng.below(W.H)])
     vers = [0] * n
     for _ in range(rng.range(15, 60)):
         w = rng.below(10)
@@ -191,6 +197,7 @@ def run(ctx):
     reals = SC.run_scripts(ctx, "session", scripts)
     for s, r in zip(scripts, reals):
         oracle(ctx, s, r)
+        W.refused_leaves_no_trace(ctx, s, r, "c02")
     ctx.sample(dict(trx_defs=scripts[0][0], ops=[SC.describe(o) for o in scripts[0][1][:12]]))
     ctx.count("operations", sum(len(s[1]) for s in scripts))
     ctx.count("transceivers", sum(2 + len(s[0]) for s in scripts))
